@@ -4,6 +4,8 @@ import (
 	"bytes"
 	"fmt"
 	"math"
+	"runtime"
+	"runtime/debug"
 	"strings"
 	"testing"
 
@@ -227,8 +229,16 @@ func TestC02_Table(t *testing.T) {
 		cases = append(cases, val.V{K: val.List, Items: items}, val.V{K: val.Map, Ents: ents})
 	}
 	if evid.Thorough() {
+		// the 4-byte / 8-byte length-head boundary, one 4 GiB string at a time and without keeping
+		// the output (a counting writer): the head bytes, the total length and EncodedLength
 		for _, n := range []int{1<<32 - 1, 1 << 32} {
-			cases = append(cases, val.MkString(strings.Repeat("z", n)))
+			if err := c02HugeString(n); err != nil {
+				evid.SaveFailure("C02", "encode", C02Case{V: val.MkString(fmt.Sprintf("<string of %d bytes>", n)), Impl: string(nodes.BasicAny)}, err)
+				t.Fatalf("C02.table: %v", err)
+			}
+			rec.CaseCounted(true, "root:string", "length-head:2^32")
+			runtime.GC()
+			debug.FreeOSMemory()
 		}
 	}
 	for i, v := range cases {
@@ -245,6 +255,45 @@ func TestC02_Table(t *testing.T) {
 			t.Fatalf("C02.table case %d: %v", i, err)
 		}
 	}
+}
+
+type headCountWriter struct {
+	head []byte
+	n    int64
+}
+
+func (w *headCountWriter) Write(p []byte) (int, error) {
+	if len(w.head) < 16 {
+		k := 16 - len(w.head)
+		if k > len(p) {
+			k = len(p)
+		}
+		w.head = append(w.head, p[:k]...)
+	}
+	w.n += int64(len(p))
+	return len(p), nil
+}
+
+func c02HugeString(n int) error {
+	node := basicnode.NewString(strings.Repeat("z", n))
+	var want []byte
+	if n < 1<<32 {
+		want = []byte{0x7a, byte(n >> 24), byte(n >> 16), byte(n >> 8), byte(n)}
+	} else {
+		want = []byte{0x7b, 0, 0, 0, byte(n >> 32), byte(n >> 24), byte(n >> 16), byte(n >> 8), byte(n)}
+	}
+	w := &headCountWriter{}
+	if err := evid.Guard("dagcbor.Encode", func() error { return dagcbor.Encode(node, w) }); err != nil {
+		return fmt.Errorf("encoding a string of %d bytes failed: %w", n, err)
+	}
+	if !bytes.HasPrefix(w.head, want) || w.n != int64(len(want)+n) {
+		return fmt.Errorf("string of %d bytes: head %x and %d bytes in all, want head %x and %d bytes", n, w.head[:len(want)], w.n, want, len(want)+n)
+	}
+	l, err := dagcbor.EncodedLength(node)
+	if err != nil || l != w.n {
+		return fmt.Errorf("string of %d bytes: EncodedLength = %d (err %v), produced %d", n, l, err, w.n)
+	}
+	return nil
 }
 
 // TestC02_BadLinks: undefined CIDs and non-CID links must be refused, not emitted.
